@@ -127,6 +127,18 @@ def build_rkyv():
         n += 1
     if n != 6:
         raise rsx.AnchorLost('binops::cmp (feature rkyv): expected 6 ArchivedDecimal comparison impls, found %d' % n)
+    # C15 (rkyv variants of the predicates) and the accessors of the archived type
+    u.inherent('fpdec', 'binops::cmp::impl ArchivedDecimal', {
+        'eq_zero': C(post=[('C15.rkyv.eq_zero', 'r <==> self.coeff == 0')]),
+        'eq_one': C(pre=['self.n_frac_digits <= 38'],
+                    post=[('C15.rkyv.eq_one', 'r <==> self.coeff == pow10(self.n_frac_digits as nat)')]),
+        'is_negative': C(post=[('C15.rkyv.is_negative', 'r <==> self.coeff < 0')]),
+        'is_positive': C(post=[('C15.rkyv.is_positive', 'r <==> self.coeff > 0')]),
+    })
+    u.inherent('fpdec', 'impl ArchivedDecimal', {
+        'coefficient': C(post=[('rkyv.coefficient', 'r == self.coeff')]),
+        'n_frac_digits': C(post=[('rkyv.n_frac_digits', 'r == self.n_frac_digits')]),
+    })
     u.impl('fpdec', 'binops::cmp::impl Eq for ArchivedDecimal', {})
     u.impl('fpdec', 'binops::cmp::impl Ord for ArchivedDecimal', {
         'cmp': C(post=[('C08.rkyv.cmp.by_value',
